@@ -499,7 +499,7 @@ async fn relay(target: std::net::SocketAddr, kind: &str) -> Option<(std::net::So
 }
 
 /// `port` 0: any free port; otherwise that very port (well-known numbers: what a client does must not depend on them),
-/// waiting up to 40 s for it to become free
+/// waiting a few seconds for it to become free
 async fn relay_on(target: std::net::SocketAddr, kind: &str, port: u16) -> Option<(std::net::SocketAddr, Arc<Mutex<Vec<u8>>>)> {
     if port != 0 {
         let host = match kind {
@@ -507,7 +507,8 @@ async fn relay_on(target: std::net::SocketAddr, kind: &str, port: u16) -> Option
             "host" => "[::]",
             _ => "127.0.0.1",
         };
-        for _ in 0..80 {
+        // (a few seconds at most: if somebody else on this machine holds the port the cell is skipped, not failed)
+        for _ in 0..12 {
             if let Ok(l) = TcpListener::bind(format!("{}:{}", host, port)).await {
                 return relay_with(l, target).await;
             }
